@@ -67,7 +67,9 @@ def main():
         ok = p.returncode == want
         bad += 0 if ok else 1
         print("%-45s exit=%d %s" % (name, p.returncode, "as expected" if ok else "UNEXPECTED"))
-        for l in lines[:4]:
+        vio = [l for l in lines if not l.startswith("KNOWN-FINDING")]
+        print("     known findings hit: %d" % sum(1 for l in lines if l.startswith("KNOWN-FINDING")))
+        for l in vio[:4]:
             print("     " + l[:230])
         if p.returncode >= 2:
             print(p.stdout[-1500:])
